@@ -442,6 +442,14 @@ pub unsafe extern "C" fn pwrite(fd: c_int, buf: *const c_void, n: usize, off: i6
 // ---------------------------------------------------------------------------------------------
 // fsync / fdatasync
 
+static FSYNC_FAIL_AT: AtomicUsize = AtomicUsize::new(0);
+static FSYNC_SEEN: AtomicUsize = AtomicUsize::new(0);
+/// Fail the n-th fsync of a tracked file from now on, whichever thread issues it (0: off).
+pub fn fail_nth_fsync(n: usize) {
+    FSYNC_SEEN.store(0, Ordering::SeqCst);
+    FSYNC_FAIL_AT.store(n, Ordering::SeqCst);
+}
+
 unsafe fn do_sync(fd: c_int, nr: libc::c_long) -> c_int {
     if fd > 2 && crate::sched::controlled() {
         crate::sched::park_io("fsync");
@@ -449,6 +457,12 @@ unsafe fn do_sync(fd: c_int, nr: libc::c_long) -> c_int {
     if let Some(p) = tracked_fd(fd) {
         if let Some(FaultKind::Errno(e)) = due_now() {
             seterr(e);
+            return -1;
+        }
+        let nth = FSYNC_FAIL_AT.load(Ordering::SeqCst);
+        if nth > 0 && FSYNC_SEEN.fetch_add(1, Ordering::SeqCst) + 1 == nth {
+            with(|rr| rr.push(Call::Mark(format!("fsync-failed:{}", p))));
+            seterr(libc::EIO);
             return -1;
         }
         let r = libc::syscall(nr, fd) as c_int;
